@@ -239,7 +239,8 @@ def componentArgs (C : Cfg) (ex : Nat → P Expr) :
           componentArgs C ex n (btreeInsert argName { default := dflt, typ := typ } kwargs)
             (argName :: seen)
 
-/-- the `loop {}` collecting `| filter` of a set block (parse_set) up to and including `%}` -/
+/-- the `loop {}` collecting `| filter` of a set block (parse_set); the `else { expect %}; break }`
+arm of the Rust loop is the `expectTagEnd` that follows the call in `parseSet` -/
 def setFilters (ex : Nat → P Expr) : Nat → List Expr → P (List Expr)
   | 0, _ => P.fuel
   | n+1, acc => do
@@ -247,9 +248,7 @@ def setFilters (ex : Nat → P Expr) : Nat → List Expr → P (List Expr)
       expect .pipe
       let f ← parseFilter ex (.const .none)
       setFilters ex n (acc ++ [f])
-    else do
-      expectTagEnd
-      pure acc
+    else pure acc
 
 /-- the `break` / `continue` legality walk of `parse_tag` over `body_contexts.iter().rev()`:
 `some true` = inside a loop, `some false` = not in a loop, `none` = a capture comes first -/
@@ -261,9 +260,9 @@ def loopWalk : List BodyContext → Option Bool
 
 section level
 variable (C : Bool → Cfg)
-/-- the next `parse_until` level -/
+-- the next `parse_until` level
 variable (recU : EndCheck → T (List Node))
-/-- `inner_parse_expression` at this level: `is_in_loop` → `min_bp` → parser -/
+-- `inner_parse_expression` at this level: `is_in_loop` → `min_bp` → parser
 variable (ex : Bool → Nat → P Expr)
 
 /-- `parse_if` -/
@@ -331,7 +330,9 @@ def parseSet (global : Bool) : T Node := do
       let s ← getState
       let n ← lift loopFuel
       let filters ← lift (setFilters (ex (isInLoop s)) n [])
+      -- (the Rust pushes the context after the `%}`; nothing can observe the order)
       pushCtx .Capture
+      lift expectTagEnd
       let body ← recU .endset
       popCtx
       let _ ← lift nextOrError
@@ -379,8 +380,9 @@ def parseComponentWithBody : T Expr := do
   let n ← lift loopFuel
   let kwargs ← lift (componentAttributes (ex (isInLoop s)) n [])
   lift (expect .greaterThan)
-  lift expectTagEnd
+  -- (the Rust pushes the context after the `%}`; nothing can observe the order)
   pushCtx .Capture
+  lift expectTagEnd
   let body ← recU .closingTagStart
   popCtx
   -- Check for unclosed component (EOF reached)
@@ -497,7 +499,7 @@ def untilLoop (endCheck : EndCheck) : Nat → List Node → T (List Node)
         (do
           let e ← expr ex 0
           lift expectVariableEnd
-          untilLoop endCheck n (nodes ++ [.expression e])) s1
+          untilLoop endCheck n (nodes ++ [Node.expression e])) s1
       | .tagStart _ =>
         match rest with
         | [] => .err                 -- unexpected end of input
@@ -530,11 +532,9 @@ def parseUntil : Nat → EndCheck → T (List Node)
 
 /-- `Parser::parse` -/
 def parse (maxDepth : Nat) (toks : List Tok) : TRes Template :=
-  let s0 : TState := { p := { toks := toks, arrayDim := 0, brackets := 0 }, bodyContexts := [],
-    blocksSeen := [], componentsSeen := [], parent := none, componentDefinitions := [] }
+  let s0 : TState := ⟨⟨toks, 0, 0⟩, [], [], [], none, []⟩
   match parseUntil maxDepth .never s0 with
-  | .ok nodes s => .ok { parent := s.parent, nodes := nodes,
-      componentDefinitions := s.componentDefinitions } s
+  | .ok nodes s => .ok ⟨s.parent, nodes, s.componentDefinitions⟩ s
   | .err => .err
   | .panic m => .panic m
   | .fuel => .fuel
